@@ -48,6 +48,8 @@ def gen(rnd, depth):
         if k < 0.8:
             a, av = atom(d - 1)
             b, bv = atom(d - 1)
+            if rnd.random() < 0.5 and all(re.fullmatch(r"[A-Za-z_]\w*|\d+\.?\d*(?:[de][-+]?\d+)?", x) for x in (a, b)):
+                return f"{a}**{b}", FUNCS["pow"](av, bv)       # bare operands, as KROME networks write them (x**2, 10**0.37d0)
             return f"({a})**({b})", FUNCS["pow"](av, bv)
         t, v = expr(d - 1)
         return f"({t})", v
@@ -67,7 +69,8 @@ def gen(rnd, depth):
         for _ in range(rnd.choice([0, 0, 1, 2])):
             op = rnd.choice("+-")
             t2, v2 = term(d)
-            t, v = f"{t} {op} {t2}", (v + v2 if op == "+" else v - v2)
+            sp = rnd.choice(["", " "])                          # KROME files write sums with and without blanks
+            t, v = f"{t}{sp}{op}{sp}{t2}", (v + v2 if op == "+" else v - v2)
         return t, v
     return expr(depth)
 
@@ -84,6 +87,11 @@ DIRECTED = [
     ("1d0/3d0*Tgas", Fraction(1, 3) * VARS["Tgas"], "double-literal-quotient"),
     ("Tgas**(1d0/3d0)", FUNCS["pow"](VARS["Tgas"], Fraction(1, 3)), "double-literal-quotient"),
     ("(1d0/2d0)*n(idx_H)", Fraction(1, 2) * Fraction(29, 5), "double-literal-quotient"),
+    # a sum whose second term is a power with a literal base, written without blanks
+    ("Tgas-2**T32", VARS["Tgas"] - FUNCS["pow"](Fraction(2), VARS["T32"]), "sum-of-power-no-blanks"),
+    ("T32+1d1**(invT)", VARS["T32"] + FUNCS["pow"](Fraction(10), VARS["invT"]), "sum-of-power-no-blanks"),
+    ("1.3d-10*T32-10**0.37d0*invT", Fraction(13, 10**11) * VARS["T32"] - FUNCS["pow"](Fraction(10), Fraction(37, 100)) * VARS["invT"], "sum-of-power-no-blanks"),
+    ("user_a*Tgas-3**2", VARS["user_a"] * VARS["Tgas"] - FUNCS["pow"](Fraction(3), Fraction(2)), "sum-of-power-no-blanks"),
 ]
 
 
